@@ -18,7 +18,7 @@ STRENGTH = {
  "C13": ("2-d full (arbitrary mode lists); 3-d curvature full to first order for degree <= 4 relative to the radial-graph curvature formula (a definition); 3-d integrals partial", "F8a-c F15 fixed"),
  "C14": ("full", "-"),
  "C15": ("partial: run-to-run determinism observed only; schedule-independence incl. caller-visible options / candidates and worker count proved", "F17 F31 F32 fixed"),
- "C16": ("partial: relative to DFT premises (satisfiable, checked per sample)", "-"),
+ "C16": ("full for the mathematical DFT in any dimension (identities proved); relative to numpy computing that DFT up to rounding (checked per sample against the definition) and to the smoother model", "-"),
  "C17": ("partial for the peak method (refuted default smoothing = F7)", "F7 F16 F18"),
  "C18": ("full incl. Otsu", "F36 fixed"),
  "C19": ("full", "F3 fixed"),
